@@ -11,6 +11,12 @@
    test PKI and the oracles are the reference handshake, which the harness compares with real
    rustls handshakes cell by cell.
 
+   BUILD ASSUMPTION: the client-side theorems hold for builds with a TLS feature
+   ([f_tls f = true], cargo feature _tls-any via tls-ring / tls-aws-lc): the [is_https] branch
+   of Connector::call is cfg-gated, and [c15_build_without_tls_is_plaintext] states what a build
+   without it does (every endpoint, https included, is a plaintext connection).  The harness
+   build has tls-ring, tls-native-roots and tls-webpki-roots ([t_features]).
+
    Statements only: each theorem is closed by [exact] of a lemma proved in Proofs/Tls.v. *)
 From Coq Require Import List Bool NArith.
 From Verif Require Import Lib.Obs Model.Tls Proofs.Tls.
@@ -24,11 +30,11 @@ Theorem c15_call_sent_implies_authenticated :
   forall (cert ca dname : Type) (chain_ok : list ca -> cert -> bool) (name_ok : dname -> cert -> bool)
          (rc : @TlsConnector cert ca dname -> @server cert ca -> hs_client),
   connect_sound chain_ok name_ok rc ->
-  forall (e : Endpoint) (srv : server),
-  is_https (e_scheme e) = true ->
-  call_transmitted (connect_outcome rc e srv) = true ->
+  forall (f : features) (e : Endpoint) (srv : server),
+  f_tls f = true -> is_https (e_scheme e) = true ->
+  call_transmitted (connect_outcome rc f e srv) = true ->
   exists (t : TlsConnector) (a : TlsAcceptor) (alpn : option proto),
-    e_tls e = Some t /\ srv = STls a /\ connect_outcome rc e srv = ConnTls alpn /\
+    e_tls e = Some t /\ srv = STls a /\ connect_outcome rc f e srv = ConnTls alpn /\
     chain_ok (tc_roots t) (a_cert a) = true /\
     name_ok (tc_domain t) (a_cert a) = true /\
     (alpn = Some ALPN_H2 \/ tc_assume_http2 t = true).
@@ -59,41 +65,110 @@ Theorem c15_roots_only_configured :
   (f_webpki_roots f = true /\ c_with_webpki_roots c = true /\ In r webpki_roots).
 Proof. exact @configured_roots_origin. Qed.
 
+(* in particular, with neither flag set the platform / webpki sets are irrelevant even in a
+   build that contains them *)
+Theorem c15_roots_without_flags :
+  forall (cert ca dname : Type) (native_certs webpki_roots : list ca) (f : features)
+         (c : @ClientTlsConfig cert ca dname),
+  c_with_native_roots c = false -> c_with_webpki_roots c = false ->
+  configured_roots native_certs webpki_roots f c = c_trust_anchors c ++ c_certs c.
+Proof. exact @configured_roots_no_flags. Qed.
+
 (* https without TLS configuration: the error, nothing transmitted, no handler *)
 Theorem c15_https_without_tls_fails :
   forall (cert ca dname : Type) (rc : @TlsConnector cert ca dname -> @server cert ca -> hs_client)
-         (ra : TlsAcceptor -> option cert -> hs_server) (e : Endpoint) (srv : server),
-  is_https (e_scheme e) = true -> e_tls e = None ->
-  connect_outcome rc e srv = ConnErr HttpsUriWithoutTlsSupport /\
-  call_transmitted (connect_outcome rc e srv) = false /\
-  request_reaches_handler rc ra e srv = false.
+         (ra : TlsAcceptor -> option cert -> hs_server) (f : features) (e : Endpoint) (srv : server),
+  f_tls f = true -> is_https (e_scheme e) = true -> e_tls e = None ->
+  connect_outcome rc f e srv = ConnErr HttpsUriWithoutTlsSupport /\
+  call_transmitted (connect_outcome rc f e srv) = false /\
+  request_reaches_handler rc ra f e srv = false.
 Proof. exact @https_without_tls_fails. Qed.
 
-(* never a fallback to plaintext, whatever rustls answers (no premise on the oracles) *)
+(* never a fallback to plaintext, whatever rustls answers (no premise on the oracles), in a
+   build with a TLS feature *)
 Theorem c15_no_plaintext_fallback :
   forall (cert ca dname : Type) (rc : @TlsConnector cert ca dname -> @server cert ca -> hs_client)
-         (e : Endpoint) (srv : server),
-  is_https (e_scheme e) = true -> connect_outcome rc e srv <> ConnPlain.
+         (f : features) (e : Endpoint) (srv : server),
+  f_tls f = true -> is_https (e_scheme e) = true -> connect_outcome rc f e srv <> ConnPlain.
 Proof. exact @no_plaintext_fallback. Qed.
+
+(* ... and the build assumption is necessary: without _tls-any the connector has no https
+   branch at all *)
+Theorem c15_build_without_tls_is_plaintext :
+  forall (cert ca dname : Type) (rc : @TlsConnector cert ca dname -> @server cert ca -> hs_client)
+         (f : features) (e : Endpoint) (srv : server),
+  f_tls f = false -> connect_outcome rc f e srv = ConnPlain.
+Proof. exact @build_without_tls_is_plaintext. Qed.
 
 (* otherwise connecting fails and no request reaches any handler *)
 Theorem c15_connect_failure_reaches_no_handler :
   forall (cert ca dname : Type) (rc : @TlsConnector cert ca dname -> @server cert ca -> hs_client)
-         (ra : TlsAcceptor -> option cert -> hs_server) (e : Endpoint) (srv : server) (x : conn_err),
-  connect_outcome rc e srv = ConnErr x -> request_reaches_handler rc ra e srv = false.
+         (ra : TlsAcceptor -> option cert -> hs_server) (f : features) (e : Endpoint) (srv : server)
+         (x : conn_err),
+  connect_outcome rc f e srv = ConnErr x -> request_reaches_handler rc ra f e srv = false.
 Proof. exact @connect_failure_reaches_no_handler. Qed.
+
+(* a handler runs only if BOTH the listener yielded the connection (its handshake completed)
+   and the client transmitted a request; the server's handshake may complete for a call the
+   client then refuses to send (H2NotNegotiated): Example c15_server_handshake_without_request *)
+Theorem c15_handler_needs_both :
+  forall (cert ca dname : Type) (rc : @TlsConnector cert ca dname -> @server cert ca -> hs_client)
+         (ra : TlsAcceptor -> option cert -> hs_server) (f : features) (e : Endpoint) (srv : server),
+  request_reaches_handler rc ra f e srv = true ->
+  call_transmitted (connect_outcome rc f e srv) = true /\
+  exists pc : option cert, server_handshake rc ra f e srv = SrvAccept pc.
+Proof. exact @reaches_needs_both. Qed.
+
+(* a TLS listener never runs a handler for a plaintext client *)
+Theorem c15_plaintext_client_not_served_by_tls_listener :
+  forall (cert ca dname : Type) (rc : @TlsConnector cert ca dname -> @server cert ca -> hs_client)
+         (ra : TlsAcceptor -> option cert -> hs_server) (f : features) (e : Endpoint) (a : TlsAcceptor),
+  f_tls f && is_https (e_scheme e) = false ->
+  request_reaches_handler rc ra f e (STls a) = false.
+Proof. exact @plaintext_client_not_served_by_tls_listener. Qed.
 
 (* the server's verifier is exactly what was configured: none without a client CA,
    allow_unauthenticated only when client auth was made optional; ALPN is h2 *)
 Theorem c15_acceptor_wiring :
-  forall (cert ca : Type) (s : @ServerTlsConfig cert ca) (a : TlsAcceptor),
-  tls_acceptor s = AccOk a ->
+  forall (cert ca : Type) (ca_usable : ca -> bool) (s : @ServerTlsConfig cert ca) (a : TlsAcceptor),
+  tls_acceptor ca_usable s = AccOk a ->
   s_identity s = Some (a_cert a) /\ a_alpn a = [ALPN_H2] /\
   a_verifier a = match s_client_ca_root s with
                  | Some root => WebPki root (s_client_auth_optional s)
                  | None => NoClientAuth
                  end.
 Proof. exact @tls_acceptor_spec. Qed.
+
+(* Server::tls_config followed or preceded by any other builder calls (layer rebuilds the struct
+   field by field; timeout, limits, windows, ... use struct update): the listener is the TLS
+   listener of that configuration *)
+Theorem c15_builder_preserves_tls :
+  forall (cert ca : Type) (ca_usable : ca -> bool) (before after : list (@builder_op cert ca))
+         (c : ServerTlsConfig) (a : TlsAcceptor),
+  Forall not_tls_op before -> Forall not_tls_op after ->
+  tls_acceptor ca_usable c = AccOk a ->
+  exists sv : Server,
+    server_build ca_usable server_builder (before ++ OpTls c :: after) = BuildOk sv /\
+    server_listener sv = STls a.
+Proof. exact @builder_preserves_tls. Qed.
+
+(* ... so a server built that way with a client CA serves only TLS clients with a certificate
+   of that CA (or none, if optional) *)
+Theorem c15_built_server_enforces_client_auth :
+  forall (cert ca dname : Type) (client_cert_ok : ca -> cert -> bool) (ca_usable : ca -> bool)
+         (rc : @TlsConnector cert ca dname -> @server cert ca -> hs_client)
+         (ra : TlsAcceptor -> option cert -> hs_server),
+  accept_sound client_cert_ok ra ->
+  forall (f : features) (before after : list builder_op) (c : ServerTlsConfig) (a : TlsAcceptor)
+         (root : ca) (sv : Server) (e : Endpoint),
+  Forall not_tls_op before -> Forall not_tls_op after ->
+  tls_acceptor ca_usable c = AccOk a -> s_client_ca_root c = Some root ->
+  server_build ca_usable server_builder (before ++ OpTls c :: after) = BuildOk sv ->
+  request_reaches_handler rc ra f e (server_listener sv) = true ->
+  f_tls f && is_https (e_scheme e) = true /\
+  ((exists ci : cert, endpoint_identity e = Some ci /\ client_cert_ok root ci = true) \/
+   (s_client_auth_optional c = true /\ endpoint_identity e = None)).
+Proof. exact @built_server_enforces_client_auth. Qed.
 
 (* a server configured with a client CA serves only clients presenting a certificate issued by
    it, unless client authentication was made optional and none was presented *)
@@ -102,12 +177,13 @@ Theorem c15_client_auth_enforced :
          (rc : @TlsConnector cert ca dname -> @server cert ca -> hs_client)
          (ra : TlsAcceptor -> option cert -> hs_server),
   accept_sound client_cert_ok ra ->
-  forall (s : ServerTlsConfig) (a : TlsAcceptor) (root : ca) (e : Endpoint),
-  tls_acceptor s = AccOk a -> s_client_ca_root s = Some root ->
-  request_reaches_handler rc ra e (STls a) = true ->
+  forall (ca_usable : ca -> bool) (f : features) (s : ServerTlsConfig) (a : TlsAcceptor) (root : ca)
+         (e : Endpoint),
+  tls_acceptor ca_usable s = AccOk a -> s_client_ca_root s = Some root ->
+  request_reaches_handler rc ra f e (STls a) = true ->
   (exists c : cert, endpoint_identity e = Some c /\ client_cert_ok root c = true) \/
   (s_client_auth_optional s = true /\ endpoint_identity e = None).
-Proof. exact @client_auth_enforced. Qed.
+Proof. exact (fun cert ca dname cco rc ra H cu => @client_auth_enforced cert ca dname cco cu rc ra H). Qed.
 
 (* optional + a certificate that does not verify: rejected, not treated as anonymous *)
 Theorem c15_bad_client_cert_always_rejected :
@@ -115,10 +191,10 @@ Theorem c15_bad_client_cert_always_rejected :
          (rc : @TlsConnector cert ca dname -> @server cert ca -> hs_client)
          (ra : TlsAcceptor -> option cert -> hs_server),
   accept_sound client_cert_ok ra ->
-  forall (e : Endpoint) (a : TlsAcceptor) (root : ca) (allow : bool) (c : cert),
+  forall (f : features) (e : Endpoint) (a : TlsAcceptor) (root : ca) (allow : bool) (c : cert),
   a_verifier a = WebPki root allow ->
   endpoint_identity e = Some c -> client_cert_ok root c = false ->
-  request_reaches_handler rc ra e (STls a) = false.
+  request_reaches_handler rc ra f e (STls a) = false.
 Proof. exact @bad_client_cert_always_rejected. Qed.
 
 (* handlers see peer certificates iff a client certificate was presented and verified *)
@@ -127,13 +203,20 @@ Theorem c15_peer_certs_iff_presented :
          (rc : @TlsConnector cert ca dname -> @server cert ca -> hs_client)
          (ra : TlsAcceptor -> option cert -> hs_server),
   accept_sound client_cert_ok ra ->
-  forall (e : Endpoint) (a : TlsAcceptor),
-  request_reaches_handler rc ra e (STls a) = true ->
+  forall (f : features) (e : Endpoint) (a : TlsAcceptor),
+  request_reaches_handler rc ra f e (STls a) = true ->
   forall c : cert,
-  peer_certs_exposed rc ra e (STls a) = Some c <->
+  peer_certs_exposed rc ra f e (STls a) = Some c <->
   exists (root : ca) (allow : bool),
     a_verifier a = WebPki root allow /\ endpoint_identity e = Some c /\ client_cert_ok root c = true.
 Proof. exact @peer_certs_iff_presented. Qed.
+
+(* Request::peer_certs finds them only behind a TcpConnectInfo; without a handler there is
+   nothing to see *)
+Theorem c15_request_peer_certs :
+  forall (cert : Type) (io_is_tcp : bool) (pc : option cert),
+  request_peer_certs io_is_tcp pc = if io_is_tcp then pc else None.
+Proof. exact @request_peer_certs_spec. Qed.
 
 (* end to end from the two configurations: a handler ran for an https endpoint => everything *)
 Theorem c15_served_over_https_implies_all :
@@ -144,22 +227,26 @@ Theorem c15_served_over_https_implies_all :
          (ra : TlsAcceptor -> option cert -> hs_server),
   connect_sound chain_ok name_ok rc -> accept_sound client_cert_ok ra ->
   forall (f : features) (h : option dname) (c : ClientTlsConfig) (e : Endpoint) (srv : server),
+  f_tls f = true ->
   endpoint_tls_config valid_name native_certs webpki_roots f (endpoint_from_uri Https h) c = inr e ->
-  request_reaches_handler rc ra e srv = true ->
+  request_reaches_handler rc ra f e srv = true ->
   exists (a : TlsAcceptor) (d : dname) (alpn : option proto),
     srv = STls a /\ effective_domain c h = Some d /\
     chain_ok (configured_roots native_certs webpki_roots f c) (a_cert a) = true /\
     name_ok d (a_cert a) = true /\
-    connect_outcome rc e srv = ConnTls alpn /\
+    connect_outcome rc f e srv = ConnTls alpn /\
     (alpn = Some ALPN_H2 \/ c_assume_http2 c = true) /\
     match a_verifier a with
-    | NoClientAuth => peer_certs_exposed rc ra e srv = None
+    | NoClientAuth => peer_certs_exposed rc ra f e srv = None
     | WebPki root allow =>
         (exists ci : cert, c_identity c = Some ci /\ client_cert_ok root ci = true /\
-                           peer_certs_exposed rc ra e srv = Some ci) \/
-        (allow = true /\ c_identity c = None /\ peer_certs_exposed rc ra e srv = None)
+                           peer_certs_exposed rc ra f e srv = Some ci) \/
+        (allow = true /\ c_identity c = None /\ peer_certs_exposed rc ra f e srv = None)
     end.
-Proof. exact @served_over_https_implies_all. Qed.
+Proof.
+  exact (fun cert ca dname ck nk cco vn nat web rc ra Hc Ha =>
+           @served_over_https_implies_all cert ca dname ck nk cco vn nat web rc ra Hc Ha).
+Qed.
 
 (* The complete matrix (finite domain, bound in the statement: every value of the record
    [cell] = 3 roots x 3 domain configurations x 2 URI hosts x 2 server certificates x 3 server
@@ -193,14 +280,28 @@ Example c15_no_alpn_needs_opt_out :
   cell_served (mkCell RightCA DomFromUri HostExample SCertExample AlpnNone false CaNone IdNone) = false /\
   cell_served (mkCell RightCA DomFromUri HostExample SCertExample AlpnNone true CaNone IdNone) = true.
 Proof. split; reflexivity. Qed.
+Example c15_server_handshake_without_request :
+  let x := mkCell RightCA DomFromUri HostExample SCertExample AlpnNone false CaNone IdNone in
+  exists srv ep, cell_server x = Some srv /\ cell_endpoint x = inr ep /\
+    t_srv_handshake ep srv = SrvAccept None /\
+    t_outcome ep srv = ConnErr H2NotNegotiated /\ t_reaches ep srv = false.
+Proof. exact server_handshake_without_request. Qed.
+(* the platform trusting the server's CA changes nothing unless the flag is set *)
+Example c15_native_roots_need_the_flag :
+  obs_call [CA1] true Https (Some DExample) (Some (ca_certificate cfg0 CA2)) (mk_srv SrvExample None false)
+    = Nd [Nn 3; Nn 0; Nd []; Nd []; Nn 1] /\
+  obs_call [CA1] true Https (Some DExample) (Some (with_native_roots (ca_certificate cfg0 CA2)))
+    (mk_srv SrvExample None false) = Nd [Nn 0; Nn 1; Nd []; Nd []; Nn 1].
+Proof. split; reflexivity. Qed.
 Example c15_transmitted_is_reachable :
-  exists e srv, is_https (e_scheme e) = true /\ call_transmitted (t_outcome e srv) = true.
+  exists e srv, is_https (e_scheme e) = true /\ call_transmitted (t_outcome e srv) = true /\
+                t_reaches e srv = true.
 Proof.
   exists {| e_scheme := Https; e_host := Some DExample;
             e_tls := Some {| tc_roots := [CA1]; tc_identity := None; tc_alpn := [ALPN_H2];
                              tc_domain := DExample; tc_assume_http2 := false |} |},
          (mk_srv SrvExample None false).
-  split; reflexivity.
+  repeat split; reflexivity.
 Qed.
 
 Print Assumptions c15_call_sent_implies_authenticated.
@@ -208,4 +309,6 @@ Print Assumptions c15_https_without_tls_fails.
 Print Assumptions c15_client_auth_enforced.
 Print Assumptions c15_peer_certs_iff_presented.
 Print Assumptions c15_served_over_https_implies_all.
+Print Assumptions c15_builder_preserves_tls.
+Print Assumptions c15_built_server_enforces_client_auth.
 Print Assumptions c15_matrix_complete.
